@@ -1105,6 +1105,18 @@ macro_rules! c19_typed {
             let len = crate::ctx::guard(|| view.len());
             $ctx.call("decode");
             let dec = crate::ctx::guard(|| view.decode());
+            // the same calls written as methods of the component itself (resolved through Deref)
+            if let Some(t) = &wf_text {
+                $ctx.call("method-on-component");
+                match crate::ctx::guard(|| (v.len(), v.chars().take(s.len() + 1).collect::<String>(), v.decode(), v.bytes().take(s.len() + 1).collect::<Vec<u8>>(), v.is_empty())) {
+                    Ok((l, c, d, by, e)) => {
+                        if l != t.chars().count() || &c != t || &d != t || by != want || e != t.is_empty() {
+                            $ctx.fail("C19.text", c19_feats($name, "method-on-component", wf), format!("{} {}: called on the component itself, len() = {}, chars() = {:?}, decode() = {:?}, is_empty() = {} ; the decoded text is {:?}", $name, show(s.as_bytes()), l, c, d, e, t));
+                        }
+                    }
+                    Err(m) => $ctx.fail("C19.total", c19_total_feats($name, "method-on-component", wf, &m), format!("{} {}: len()/chars()/decode()/bytes() called on the component panicked: {}", $name, show(s.as_bytes()), m)),
+                }
+            }
             match &wf_text {
                 Some(t) => {
                     match &chars { Ok(c) => if c != t { $ctx.fail("C19.text", c19_feats($name, "chars", wf), format!("{} {}: chars() = {:?}, expected {:?}", $name, show(s.as_bytes()), c, t)); }, Err(m) => $ctx.fail("C19.total", c19_total_feats($name, "chars", wf, &m), format!("{} {}: chars() panicked: {}", $name, show(s.as_bytes()), m)) }
